@@ -142,9 +142,11 @@ def CEILING(
     # floating point 0.3 / 0.1 is not 3 and 0.05 * 112 is not 5.6.
     number = decimal.Decimal(str(float(number)))
     significance = decimal.Decimal(str(float(significance)))
-    multiples = (number / significance).to_integral_value(
-        rounding=decimal.ROUND_CEILING)
-    return float(multiples * significance)
+    # (in a context of its own: the caller's may carry a low precision)
+    with decimal.localcontext(decimal.Context(prec=40)):
+        multiples = (number / significance).to_integral_value(
+            rounding=decimal.ROUND_CEILING)
+        return float(multiples * significance)
 
 
 @xl.register()
@@ -288,9 +290,10 @@ def FLOOR(
     # See CEILING: the arithmetic is decimal, not binary.
     number = decimal.Decimal(str(float(number)))
     significance = decimal.Decimal(str(float(significance)))
-    multiples = (number / significance).to_integral_value(
-        rounding=decimal.ROUND_FLOOR)
-    return float(multiples * significance)
+    with decimal.localcontext(decimal.Context(prec=40)):
+        multiples = (number / significance).to_integral_value(
+            rounding=decimal.ROUND_FLOOR)
+        return float(multiples * significance)
 
 
 @xl.register()
